@@ -840,6 +840,162 @@ def wl_packaging_coxeter(run, rng, idx):
 
 
 # ---------------------------------------------------------------------------
+# packaging of the free parameters of a Cartan matrix / of diagram labels
+
+CARTAN_PAIR_MODES = ("upper-only", "lower-only", "both-equal", "both-different", "unspecified")
+
+
+def cartan_reference(M, spec):
+    """the documented rule of CoxeterGroup.cartan_matrix, from the Coxeter
+    matrix M and spec[(i, j)] = value for every *ordered* pair whose entry is
+    set: C = -2 cos(pi / m) (2 on the diagonal, -2 for an infinite label); a
+    free entry (i, j) takes its own value if set (non-zero), else the value of
+    (j, i) if that one is set ('assumes that the intended Cartan matrix is
+    symmetric'), else stays -2.  i, j are arbitrary generator indices."""
+    M = np.asarray(M, dtype=float)
+    C = -2 * np.cos(np.pi / np.where(M <= 0, 0.5, M))
+    n = M.shape[0]
+    for i in range(n):
+        for j in range(n):
+            if i != j and M[i, j] < 0:
+                v = spec.get((i, j), 0.0)
+                if v == 0:
+                    v = spec.get((j, i), 0.0)
+                if v != 0:
+                    C[i, j] = v
+    return C
+
+
+def cartan_parameter_packagings(n, spec, integer):
+    """the same set of specified entries in every documented packaging of
+    `parameters` ('dict or ndarray': a dict {(i, j): v}, or an n*n matrix that
+    is zero except for the free parameters; 'not set (or set to zero)')."""
+    conv = int if integer else float
+    full = np.zeros((n, n))
+    for (i, j), v in spec.items():
+        full[i, j] = v
+    out = {"dict-python": {k: conv(v) for k, v in spec.items()},
+           "dict-numpy-scalar": {k: (np.int64(v) if integer else np.float64(v)) for k, v in spec.items()},
+           "dict-0d-array": {k: np.array(conv(v)) for k, v in spec.items()},
+           "dict-numpy-int-keys": {(np.int64(i), np.int64(j)): conv(v) for (i, j), v in spec.items()},
+           "dict-with-explicit-zeros": dict([((j, i), 0) for (i, j) in spec if (j, i) not in spec]
+                                            + [(k, conv(v)) for k, v in spec.items()]),
+           "ndarray-float": full.copy()}
+    if integer:
+        out["ndarray-int"] = full.astype(np.int64)
+        out["dict-python-float"] = {k: float(v) for k, v in spec.items()}
+    return out
+
+
+def wl_packaging_cartan(run, rng, idx):
+    """free Cartan parameters of a Coxeter group with infinite labels, each free
+    pair {i < j} set at (i, j) only, at (j, i) only, at both (equal / different)
+    or not at all, in every documented packaging of `parameters`; the Cartan
+    matrix and the Tits-Vinberg generators against the documented rule.
+
+    Seeded change C12-r7-3: cartan_matrix visited only the upper triangle of the
+    free entries, so a parameter given only under a key (j, i), j > i, or only
+    in the lower triangle of a parameter matrix, was silently ignored."""
+    from geometry_tools import coxeter
+    mon = run.monitor("packaging")
+    n = 3 + idx % 3
+    integer = idx % 3 == 2
+    while True:
+        M = np.ones((n, n), dtype=int)
+        iu = np.triu_indices(n, 1)
+        labs = rng.choice([2, 3, 4, 5, 7, -1, -1, -1], size=len(iu[0]))
+        M[iu] = labs
+        M = np.triu(M, 1) + np.triu(M, 1).T + np.eye(n, dtype=int)
+        if np.any(labs < 0):
+            break
+    free = [(int(i), int(j)) for i, j in zip(*iu) if M[i, j] < 0]
+    spec, modes = {}, {}
+    for p, (i, j) in enumerate(free):
+        mode = CARTAN_PAIR_MODES[(idx + p) % len(CARTAN_PAIR_MODES)]
+        modes[(i, j)] = mode
+        v = -float(rng.integers(3, 8)) if integer else float(rng.uniform(-6.0, -2.1))
+        w = -float(rng.integers(8, 12)) if integer else float(rng.uniform(-9.0, -6.5))
+        if mode in ("upper-only", "both-equal", "both-different"):
+            spec[(i, j)] = v
+        if mode in ("lower-only", "both-equal"):
+            spec[(j, i)] = v
+        if mode == "both-different":
+            spec[(j, i)] = w
+    Cref = cartan_reference(M, spec)
+    names = "abcdefgh"[:n]
+    for form in ("matrix", "diagram"):
+        if form == "matrix":
+            G = coxeter.CoxeterGroup(matrix=M.copy())
+        else:
+            # the same group from its (complete) diagram, generators in the same order
+            G = coxeter.CoxeterGroup(diagram=[(names[i], names[j], int(M[i, j]))
+                                              for i in range(n) for j in range(i + 1, n)])
+        for label, params in cartan_parameter_packagings(n, spec, integer).items():
+            case = {"coxeter_matrix": M, "group_from": form, "packaging": label,
+                    "specified": [[i, j, v] for (i, j), v in sorted(spec.items())],
+                    "pair_modes": [[i, j, m] for (i, j), m in sorted(modes.items())]}
+            run.current_case = case
+            C = np.asarray(G.cartan_matrix(params))
+            if C.dtype == np.dtype("O") or C.dtype.kind not in "fc" or C.shape != (n, n):
+                mon.fail("packaging/object-dtype/CoxeterGroup.cartan_matrix/%s" % label,
+                         "cartan_matrix with parameters as %s returned %s data of shape %r"
+                         % (label, C.dtype, C.shape), case)
+                continue
+            dev = np.abs(C.astype(float) - Cref)
+            tag = "none"
+            if np.max(dev) > TOL:
+                i, j = np.unravel_index(int(np.argmax(dev)), dev.shape)
+                tag = modes.get((min(i, j), max(i, j)), "fixed-entry")
+            if not mon.judge(float(np.max(dev)), TOL,
+                             "packaging/absolute-value/CoxeterGroup.cartan_matrix/%s/pair:%s" % (label, tag),
+                             "cartan_matrix with the free parameters as %s is not the documented matrix "
+                             "(worst entry belongs to a pair given %s)" % (label, tag), case):
+                continue
+            rep = G.tits_vinberg_rep(params)
+            err = 0.0
+            for i, g in enumerate(G.ordered_gens if form == "diagram" else names):
+                E = np.zeros((n, n))
+                E[i, i] = 1.0
+                err = max(err, float(np.max(np.abs(np.asarray(rep[g], dtype=float) - (np.eye(n) - E @ Cref)))))
+            if mon.judge(err, TOL, "packaging/absolute-value/CoxeterGroup.tits_vinberg_rep/%s" % label,
+                         "tits_vinberg_rep with the free parameters as %s: a generator is not "
+                         "I - e_i e_i^T C for the documented Cartan matrix" % label, case):
+                run.note_class("cartan", form, label, n, tuple(sorted(set(modes.values()))))
+    # diagram labels in every packaging, edges in either orientation: the same form
+    gi_ref = -np.cos(np.pi / np.where(M <= 0, 0.5, M.astype(float)))
+    flips = rng.random(size=n * n) < 0.5
+    for label, conv in (("python-int", int), ("numpy-int64", np.int64), ("numpy-int32", np.int32),
+                        ("python-float", float), ("int-0d-array", lambda v: np.array(int(v)))):
+        edges = []
+        for i in range(n):
+            for j in range(i + 1, n):
+                a, b = (names[j], names[i]) if flips[i * n + j] else (names[i], names[j])
+                edges.append((a, b, conv(M[i, j])))
+        case = {"coxeter_matrix": M, "packaging": label, "edges": [[a, b, float(m)] for a, b, m in edges]}
+        run.current_case = case
+        try:
+            G = coxeter.CoxeterGroup(diagram=edges)
+            B = np.asarray(G.bilinear_form())
+            order = [names.index(g) for g in G.ordered_gens]
+        except Exception as e:
+            import traceback
+            mon.fail("packaging/exception:%s/CoxeterGroup(diagram)/%s" % (type(e).__name__, label),
+                     "CoxeterGroup(diagram=...) with labels as %s raised %s: %s"
+                     % (label, type(e).__name__, str(e)[:160]), case, tb=traceback.format_exc())
+            continue
+        if B.dtype == np.dtype("O") or B.dtype.kind not in "fc":
+            mon.fail("packaging/object-dtype/CoxeterGroup(diagram).bilinear_form/%s" % label,
+                     "bilinear_form of a diagram with labels as %s has dtype %s" % (label, B.dtype), case)
+            continue
+        if mon.judge(float(np.max(np.abs(B.astype(float) - gi_ref[np.ix_(order, order)]))), TOL,
+                     "packaging/absolute-value/CoxeterGroup(diagram).bilinear_form/%s" % label,
+                     "bilinear form of a diagram with labels as %s is not -cos(pi / m)" % label, case):
+            run.note_class("diagram", label, n)
+    if idx < 2:
+        run.sample({"coxeter_matrix": M, "specified": [[i, j, v] for (i, j), v in sorted(spec.items())]})
+
+
+# ---------------------------------------------------------------------------
 # rescaling (homogeneous coordinates x per-unit non-zero scalars)
 
 def rand_factors(rng, shape, pattern):
@@ -1879,6 +2035,7 @@ WORKLOADS = [
     Workload("packaging-scalar", wl_packaging_scalar, quick=12, thorough=300),
     Workload("packaging-matrix", wl_packaging_matrix, quick=12, thorough=300),
     Workload("packaging-coxeter", wl_packaging_coxeter, quick=8, thorough=64),
+    Workload("packaging-cartan", wl_packaging_cartan, quick=15, thorough=300),
     Workload("packaging-integer-data", wl_packaging_integer_data, quick=25, thorough=250),
     Workload("packaging-sequence", wl_packaging_sequence, quick=24, thorough=360),
     Workload("packaging-open-findings", wl_packaging_open_findings, quick=8, thorough=160),
